@@ -4,9 +4,13 @@ Reference terminal: spec/Terminal.tla (shared with C04/C12) through spec/VTermOp
 dialect, comparison, shape and reply predicates); design model and GENERATOR of command sequences:
 spec/VTerm.tla; judge: spec/VTermTrace.tla.
 
-(a) faithfulness: command sequences of the listed subset (TLC -simulate behaviours of VTerm.tla + seeded
-    random), encoded as bytes, fed in random chunks to a real TermCanvas; after every command the grid, cursor,
-    scrollback and pen are recorded and compared by TLC with the reference stepped by the same command.
+(a) faithfulness: command sequences of the listed subset and of what a VT100 documents next to it (text runs,
+    IND / NEL, CHA / VPA / CNL / CPL, ECH, tab stops, origin / insert / autowrap / new-line mode, save / restore
+    cursor, charsets, DSR / CPR / DA): TLC -simulate behaviours of VTerm.tla, the exhaustive scrolling-region
+    family of VTerm.tla (RegSpec: region x cursor row x command, exported with tlc -dump), seeded random and
+    directed sequences, encoded as bytes, fed in random chunks to a real TermCanvas; after every command the
+    grid, cursor, scrollback, pen, region, tab stops, modes and replies are recorded and compared by TLC with
+    the reference stepped by the same command.
 (b) robustness: arbitrary / malformed byte streams, any chunking, resizes down to 1x1, under a CPU-time watchdog;
     per feed: exception class, row lengths, cursors, region, replies.  No verdict is computed here.
 """
@@ -21,6 +25,12 @@ from .. import term as vt
 from .. import tlc
 
 LISTED = ("put", "cr", "lf", "ri", "bs", "cup", "cuu", "cud", "cuf", "cub", "el", "ed", "ich", "dch", "il", "dl", "stbm", "sgr")
+EXT = ("txt", "ind", "nel", "cha", "vpa", "cnl", "cpl", "ech", "ht", "hts", "tbc", "decom", "irm", "decawm", "lnm",
+       "decsc", "decrc", "scosc", "scorc", "so", "si", "scs")
+QUERY = ("cpr", "dsr", "da")
+CMDS = LISTED + EXT + QUERY
+# commands after which a VT100 still has its last-column flag (the cursor does not move)
+KEEPS_FLAG = ("el", "ed", "ech", "sgr", "ht", "hts", "tbc", "irm", "decawm", "lnm", "decsc", "scosc", "so", "si", "scs", "view") + QUERY
 CPU_BUDGET_S = 4.0     # user CPU seconds of this process for ONE feed (ITIMER_VIRTUAL: machine load cannot trip it)
 WALL_BUDGET_S = 90.0   # backstop for a feed that blocks without burning CPU
 LOOP_FINALS = b"LM@P"  # insert/delete lines/characters
@@ -124,11 +134,17 @@ def cell_of(c):
 
 
 def observe(t):
+    m = t.modes
     return {"g": [[cell_of(c) for c in row] for row in t.content()],
             "cur": list(t.term_cursor),
             "sb": [[cell_of(c) for c in row] for row in t.scrollback_buffer],
             "pen": pen_of(t.empty_char()[0]),
-            "reg": [t.scrollregion_start, t.scrollregion_end]}
+            "reg": [t.scrollregion_start, t.scrollregion_end],
+            "tabs": [x for x in range(t.width) if t.is_tabstop(x)],
+            "md": [int(bool(m.constrain_scrolling)), int(bool(m.insert)), int(bool(m.autowrap)), int(bool(m.lfnl))]}
+
+
+NO_OBS = {"g": [], "cur": [0, 0], "sb": [], "pen": [-1, -1, 0], "reg": [0, 0], "tabs": [], "md": [0, 0, 1, 0]}
 
 
 # ---- (a) commands -> bytes ---------------------------------------------------------------------------------
@@ -146,10 +162,40 @@ def encode(cmd, rng):
     E = "\x1b["
     if t == "put":
         return chr(a).encode("utf-8")
+    if t == "txt":
+        return "".join(chr(c) for c in ps).encode("utf-8")
     if t == "cr":
         return b"\r"
     if t == "lf":
-        return rng.choice([b"\n", b"\n", b"\x0b", b"\x0c", b"\x1bD"])
+        return rng.choice([b"\n", b"\n", b"\x0b", b"\x0c"])
+    if t == "ind":
+        return b"\x1bD"
+    if t == "nel":
+        return b"\x1bE"
+    if t in ("ht", "so", "si"):
+        return {"ht": b"\t", "so": b"\x0e", "si": b"\x0f"}[t]
+    if t in ("hts", "decsc", "decrc"):
+        return {"hts": b"\x1bH", "decsc": b"\x1b7", "decrc": b"\x1b8"}[t]
+    if t in ("scosc", "scorc"):
+        return (E + rng.choice(["", "", "0"]) + ("s" if t == "scosc" else "u")).encode()
+    if t == "scs":
+        return b"\x1b" + (b"(" if a == 0 else b")") + bytes([b])
+    if t in ("decom", "irm", "decawm", "lnm"):
+        num = {"decom": "?6", "irm": "4", "decawm": "?7", "lnm": "20"}[t]
+        if rng.random() < 0.2:       # the same mode named twice in one sequence
+            num += ";" + num.lstrip("?")
+        return (E + num + ("h" if a else "l")).encode()
+    if t == "tbc":
+        return (E + _n(rng, a, 0) + "g").encode()
+    if t in ("cha", "vpa", "cnl", "cpl", "ech"):
+        fin = {"cha": rng.choice("GG`"), "vpa": "d", "cnl": "E", "cpl": "F", "ech": "X"}[t]
+        return (E + (_n(rng, a, 1) if a else rng.choice(["0", ""])) + fin).encode()
+    if t == "cpr":
+        return b"\x1b[6n"
+    if t == "dsr":
+        return b"\x1b[5n"
+    if t == "da":
+        return rng.choice([b"\x1b[c", b"\x1b[0c", b"\x1bZ"])
     if t == "ri":
         return b"\x1bM"
     if t == "bs":
@@ -159,7 +205,7 @@ def encode(cmd, rng):
         body = row + (";" + col if col or rng.random() < 0.5 else "")
         return (E + body + rng.choice("HHf")).encode()
     if t in ("cuu", "cud", "cuf", "cub", "ich", "dch", "il", "dl"):
-        fin = {"cuu": "A", "cud": "B", "cuf": "C", "cub": "D", "ich": "@", "dch": "P", "il": "L", "dl": "M"}[t]
+        fin = {"cuu": "A", "cud": rng.choice("BBe"), "cuf": rng.choice("CCa"), "cub": "D", "ich": "@", "dch": "P", "il": "L", "dl": "M"}[t]
         return (E + (_n(rng, a, 1) if a else rng.choice(["0", ""])) + fin).encode()
     if t in ("el", "ed"):
         return (E + _n(rng, a, 0) + ("K" if t == "el" else "J")).encode()
@@ -181,6 +227,30 @@ def chunks(data, rng):
 
 def make_step(cmd, rng):
     return {"t": cmd["t"], "a": cmd["a"], "b": cmd["b"], "ps": list(cmd["ps"]), "pieces": [p.hex() for p in chunks(encode(cmd, rng), rng)]}
+
+
+class CharsetShadow:
+    """Diagnostic only (signature of the charset-table finding): the charset a glyph would be printed in if ESC 7 / ESC 8 saved and
+    restored the designations (G1 starts as the graphics set in the emulator)."""
+
+    def __init__(self):
+        self.g = ["B", "0"]
+        self.active = 0
+        self.saved = None
+
+    def apply(self, st):
+        k = st["t"]
+        if k == "scs":
+            self.g[st["a"]] = "0" if st["b"] == 48 else "B"
+        elif k in ("so", "si"):
+            self.active = 1 if k == "so" else 0
+        elif k == "decsc":
+            self.saved = (list(self.g), self.active)
+        elif k == "decrc" and self.saved is not None:
+            self.g, self.active = list(self.saved[0]), self.saved[1]
+
+    def current(self):
+        return "0" if self.g[self.active] == "0" else None
 
 
 class SgrKinds:
@@ -237,8 +307,11 @@ def run_a(spec):
     emu = Emu(w, h, "utf8")
     t = emu.t
     ev = []
-    moved = False   # a command other than printable text since the emulator last set its pending-wrap flag
+    stale_by = ""   # first command that clears a VT100's last-column flag since the emulator last set its pending-wrap flag
     kinds = SgrKinds()
+    scs_since_save = False     # a charset was designated since the last ESC 7 ...
+    restored_after_scs = False  # ... and the cursor has been restored since (diagnostic, sticky)
+    shadow = CharsetShadow()
     for st in spec["steps"]:
         k = st["t"]
         e = {"t": k, "a": st.get("a", 0), "b": st.get("b", 0), "ps": st.get("ps", []), "exc": "", "w": w, "h": h, "k": st.get("k", 0)}
@@ -246,14 +319,20 @@ def run_a(spec):
         cy = t.term_cursor[1]
         e["rot"] = int(rot_in)
         e["d_pending_in"] = rot_in
-        e["d_stale_pending"] = rot_in and moved
+        e["d_stale_pending"] = rot_in and bool(stale_by)
+        e["d_stale_by"] = stale_by if rot_in else ""
         e["d_row_vs_region"] = "above" if cy < t.scrollregion_start else "below" if cy > t.scrollregion_end else "inside"
         e["d_cx_gt0"] = t.term_cursor[0] > 0
+        e["d_cy_in"] = cy
+        e["d_om"] = bool(t.modes.constrain_scrolling)
+        e["d_charset_stale"] = t.charset.current != shadow.current()
+        emu.stub.replies = []
+        nothing_to_restore = k in ("decrc", "scorc") and t.saved_cursor is None     # then the command does nothing (console dialect)
         if k == "resize":
             w, h = st["w"], st["h"]
             e["w"], e["h"] = w, h
             exc, hang = guarded(lambda: t.resize(w, h))  # noqa: B023
-            moved = True
+            stale_by = stale_by or k
         elif k == "view":
             view = []
 
@@ -277,21 +356,30 @@ def run_a(spec):
             exc, hang = guarded(feed)
             if k == "sgr":
                 kinds.apply(st["ps"])
-            if k == "put":
-                moved = False
-            else:
-                moved = True
+            if k in ("put", "txt"):
+                stale_by = ""
+            elif k not in KEEPS_FLAG and not nothing_to_restore:
+                stale_by = stale_by or k
+            shadow.apply(st)
+            if k == "decsc":
+                scs_since_save = False
+            elif k == "scs":
+                scs_since_save = True
+            elif k == "decrc" and scs_since_save:
+                restored_after_scs = True
         e["exc"] = "WatchdogHang" if hang else exc
         try:
             e.update(pre if k == "view" else observe(t))
         except Exception as ex:  # noqa: BLE001
             e["exc"] = e["exc"] or "observe:" + type(ex).__name__
-            e.update({"g": [], "cur": [0, 0], "sb": [], "pen": [-1, -1, 0], "reg": [0, 0]})
+            e.update(NO_OBS)
+        e["reps"] = list(emu.stub.replies)
         e["pend"] = int(bool(t.is_rotten_cursor))
         a = t.attrspec
         e["d_true_palette_mix"] = bool(a is not None and a.colors == 2 ** 24 and kinds.palette())
         e["d_bright_carried"] = kinds.bright_carried()
         e["d_sgr_trailing_zero_component"] = k == "sgr" and kinds.trailing_zero_component
+        e["d_restored_after_scs"] = restored_after_scs
         ev.append(e)
         if e["exc"]:
             break
@@ -493,13 +581,55 @@ SGRS = [[48, 5, 0], [38, 2, 0, 0, 0], [0], [], [31], [42], [1], [4], [7], [5], [
         [31, 38, 2, 300, 0, 0], [42, 48, 2, 1, 300, 0], [34, 38, 5, 300], [38, 5, 256, 32], [48, 2, 0, 0, 999, 41], [35, 48, 5, 1000, 39]]
 
 
-def random_a_spec(rng):
+def random_ext_cmd(rng, w, h, i, g1d):
+    """one command outside the literally listed subset (VTermOps: Ext, Query)"""
+    r = rng.random() * 100
+    if r < 14:
+        return _c("txt", ps=[97 + (i + j) % 26 for j in range(rng.randint(2, w + 2))])
+    if r < 20:
+        return _c(rng.choice(["ind", "nel", "nel"]))
+    if r < 30:
+        return _c(rng.choice(["cha", "vpa"]), rng.randint(0, max(w, h) + 1))
+    if r < 36:
+        return _c(rng.choice(["cnl", "cpl"]), rng.randint(0, h))
+    if r < 41:
+        return _c("ech", rng.randint(0, w + 1))
+    if r < 47:
+        return _c("ht")
+    if r < 51:
+        return _c("hts")
+    if r < 54:
+        return _c("tbc", rng.choice([0, 0, 3]))
+    if r < 73:
+        return _c(rng.choice(["decom", "decom", "irm", "decawm", "lnm"]), rng.randint(0, 1))
+    if r < 77:
+        return _c("decsc")
+    if r < 82:
+        return _c("decrc")
+    if r < 84:
+        return _c("scosc")
+    if r < 87:
+        return _c("scorc")
+    if r < 93:
+        return _c("scs", rng.randint(0, 1), rng.choice([48, 48, 66])) if not g1d or rng.random() < 0.5 else _c(rng.choice(["so", "si"]))
+    if r < 98:
+        return _c("cpr")
+    return _c(rng.choice(["dsr", "da"]))
+
+
+def random_a_spec(rng, ext=0.0):
     w, h = rng.choice([2, 3, 3, 4, 4, 5]), rng.choice([1, 2, 3, 3, 4])
-    spec = {"w": w, "h": h, "steps": [], "driver": "random"}
+    if ext:
+        w, h = rng.choice([1, 2, 3, 4, 5, 9, 10, 17]), rng.choice([1, 2, 3, 4, 4, 5])
+    spec = {"w": w, "h": h, "steps": [], "driver": "random-ext" if ext else "random"}
+    g1d = False    # G1 is invoked only after it has been designated (console default: graphics, VT100 default: ASCII)
     for i in range(rng.randint(8, 18)):
         r = rng.random() * 100
         cnt = lambda: rng.randint(0, w + 1)  # noqa: E731
-        if r < 26:
+        if ext and rng.random() < ext:
+            c = random_ext_cmd(rng, w, h, i, g1d)
+            g1d = g1d or (c["t"] == "scs" and c["a"] == 1)
+        elif r < 26:
             c = {"t": "put", "a": rng.choice([97 + i % 26, 65 + i % 26, 233, 126]), "b": 0, "ps": []}
         elif r < 30:
             c = {"t": "cr", "a": 0, "b": 0, "ps": []}
@@ -530,7 +660,7 @@ def random_a_spec(rng):
             spec["steps"].append({"t": "resize", "w": w, "h": h})
             continue
         else:
-            spec["steps"].append({"t": "view", "k": rng.randint(1, 3)})
+            spec["steps"].append({"t": "view", "k": rng.randint(1, 2 * h + 2)})
             continue
         spec["steps"].append(make_step(c, rng))
     return spec
@@ -565,12 +695,46 @@ def directed_a_specs(rng):
         (3, 3, [_c("sgr", ps=[1, 31])] + txt("a") + [_c("sgr", ps=[32])] + txt("b") + [_c("sgr", ps=[38, 5, 100, 48, 5, 200])] + txt("c")
                + [_c("sgr", ps=[0])] + txt("d") + [_c("sgr", ps=[42]), _c("el", 0), _c("ed", 2)]),
         (1, 2, txt("~IJ")),
+        # next to the listed subset: text runs, tab stops, modes, save / restore, charsets, queries (plain cases)
+        (4, 4, [_c("txt", ps=[65 + i for i in range(16)]), _c("stbm", 1, 2), _c("cup", 0, 2), _c("txt", ps=[97 + i for i in range(6)]), _c("cpr")]),
+        (4, 4, [_c("txt", ps=[65 + i for i in range(16)]), _c("stbm", 2, 3), _c("decom", 1), _c("cup", 1, 0), _c("cpr"), _c("cup", 0, 9), _c("cpr"),
+                _c("cuu", 9), _c("vpa", 2), _c("txt", ps=[97, 98, 99, 100, 101, 102]), _c("decom", 0), _c("cpr")]),
+        (20, 2, txt("ab") + [_c("ht")] + txt("c") + [_c("ht"), _c("ht"), _c("ht")] + txt("d") + [_c("cup", 3, 1), _c("hts"), _c("cr"), _c("ht"), _c("cpr"),
+                                                                                                 _c("tbc", 0), _c("cr"), _c("ht"), _c("tbc", 3), _c("cr"), _c("ht")]
+                + txt("e") + [_c("cr"), _c("ht")]),                                               # the last tab starts on a glyph
+        (5, 2, txt("abcde") + [_c("cup", 1, 0), _c("irm", 1)] + txt("XY") + [_c("irm", 0)] + txt("Z")),
+        (4, 2, [_c("decawm", 0)] + txt("abcdef") + [_c("decawm", 1)] + txt("gh")),
+        (4, 3, [_c("lnm", 1)] + txt("ab") + [_c("lf")] + txt("c") + [_c("ind")] + txt("d") + [_c("lnm", 0), _c("lf")] + txt("e")),
+        (4, 3, [_c("sgr", ps=[31]), _c("cup", 2, 1), _c("decsc"), _c("sgr", ps=[0, 42]), _c("cup", 0, 0)] + txt("a") + [_c("decrc")] + txt("b")
+               + [_c("scosc"), _c("cup", 0, 2), _c("scorc")] + txt("c")),
+        (6, 2, [_c("scs", 0, 48)] + txt("lqk") + [_c("scs", 0, 66)] + txt("q") + [_c("scs", 1, 48), _c("so")] + txt("x") + [_c("si")] + txt("x")),
+        (4, 2, [_c("dsr"), _c("da"), _c("cpr")] + txt("abcd") + [_c("cpr")] + txt("e") + [_c("cpr")]),
+        (6, 2, [_c("decsc"), _c("scs", 0, 48), _c("decrc")] + txt("q") + [_c("si")] + txt("q")),   # a designation between save and restore
+        (4, 4, [_c("txt", ps=[65 + i for i in range(16)]), _c("stbm", 2, 3), _c("decom", 1), _c("ed", 0)]),
+        (1, 3, txt("a") + [_c("decom", 1)] + txt("b")),
+        (4, 3, [_c("cup", 3, 0), _c("scosc"), _c("cup", 0, 1)] + txt("abcd") + [_c("scorc")] + txt("e") + [_c("cup", 3, 2), _c("decsc"), _c("cup", 0, 1)]
+               + txt("fghi") + [_c("decrc")] + txt("j")),                                        # restoring the cursor while a wrap is pending
+        (9, 2, txt("abcdefghi") + [_c("ht")] + txt("j")),                                         # a tab while a wrap is pending
     ]
     out = []
     for w, h, cmds in seqs:
         steps = [make_step(c, rng) for c in cmds]
         steps.append({"t": "view", "k": 1})
         out.append({"w": w, "h": h, "steps": steps, "driver": "directed"})
+    return out
+
+
+def scrollback_view_specs(rng, heights):
+    """n lines scrolled off the top of an h-line screen (less than one, one to two, more than two screens), then the view scrolled
+    back by every k from one line to beyond the top of the scrollback."""
+    out = []
+    for h in heights:
+        for n in sorted({1, h, h + 1, 2 * h - 1, 2 * h, 2 * h + 1, 3 * h}):
+            cmds = []
+            for i in range(n + h):
+                cmds += [_c("txt", ps=[65 + i % 26, 97 + i % 26])] + ([_c("nel")] if i < n + h - 1 else [])
+            steps = [make_step(c, rng) for c in cmds] + [{"t": "view", "k": k} for k in range(1, n + 3)]
+            out.append({"w": 3, "h": h, "steps": steps, "driver": "scrollback-views"})
     return out
 
 
@@ -595,34 +759,47 @@ def directed_b_specs():
     return out
 
 
-SIM_CFG = """CONSTANTS W = {w} H = {h} Depth = {d} Clean = {clean}
+LAWS = """INVARIANT Shape
+INVARIANT ExtShape
+INVARIANT SelfAccepted
+INVARIANT RepliesWellFormed
+PROPERTY ScrollbackGrowsInOrder
+PROPERTY ScrollbackFedFromTheTop
+PROPERTY RegionScrollIsLocal
+PROPERTY WrapOutsideRegion
+PROPERTY TextBelowRegion
+PROPERTY QueriesChangeNothing
+CHECK_DEADLOCK FALSE
+"""
+SIM_CFG = """CONSTANTS W = {w} H = {h} Depth = {d} Clean = {clean} ExtPct = {ext} RegDepth = 1
 SPECIFICATION SimSpec
 INVARIANT Shape
+INVARIANT ExtShape
 CHECK_DEADLOCK FALSE
 """
-MC_CFG = """CONSTANTS W = {w} H = {h} Depth = {d} Clean = FALSE
+MC_CFG = """CONSTANTS W = {w} H = {h} Depth = {d} Clean = FALSE ExtPct = {ext} RegDepth = 1
 SPECIFICATION Spec
-INVARIANT Shape
-INVARIANT SelfAccepted
 INVARIANT DialectWellFormed
 INVARIANT ViewLaw
-PROPERTY ScrollbackGrowsInOrder
-CHECK_DEADLOCK FALSE
-"""
-REFUTE_CFG = """CONSTANTS W = 3 H = 2 Depth = 3 Clean = FALSE
+""" + LAWS
+REG_CFG = """CONSTANTS W = {w} H = {h} Depth = 0 Clean = FALSE ExtPct = 0 RegDepth = {rd}
+SPECIFICATION RegSpec
+""" + LAWS
+REFUTE_CFG = """CONSTANTS W = {w} H = {h} Depth = 3 Clean = FALSE ExtPct = 0 RegDepth = 1
 SPECIFICATION Spec
-INVARIANT ExclusiveEraseIsAccepted
+INVARIANT {inv}
 CHECK_DEADLOCK FALSE
 """
+REFUTE = [("ExclusiveEraseIsAccepted", 3, 2), ("MarginBoundWrapIsAccepted", 2, 4)]   # (wrong variant the comparator must refute, W, H)
 
 
-def sim_behaviours(chk, w, h, depth, clean, num, jobs):
-    return tlc.simulate("VTerm", SIM_CFG.format(w=w, h=h, d=depth, clean="TRUE" if clean else "FALSE"), num=num, depth=depth + 1,
-                        seed=chk.seed + (7 if clean else 0) + 13 * w + 101 * h, jobs=jobs, timeout=900)
+def sim_behaviours(chk, w, h, depth, clean, ext, num, jobs):
+    return tlc.simulate("VTerm", SIM_CFG.format(w=w, h=h, d=depth, clean="TRUE" if clean else "FALSE", ext=ext), num=num, depth=depth + 1,
+                        seed=chk.seed + (7 if clean else 0) + 13 * w + 101 * h + 3 * ext, jobs=jobs, timeout=900)
 
 
 def sim_specs(plan, behs, rng):
-    w, h, depth, clean = plan
+    w, h, depth, clean, ext = plan
     out = []
     for b in behs:
         steps = []
@@ -630,8 +807,25 @@ def sim_specs(plan, behs, rng):
             c = st["last"]
             steps.append(make_step({"t": c["t"], "a": c["a"], "b": c["b"], "ps": list(c["ps"])}, rng))
         if rng.random() < 0.5:
-            steps.append({"t": "view", "k": rng.randint(1, 2)})
-        out.append(({"w": w, "h": h, "steps": steps, "driver": "tlc-simulate-clean" if clean else "tlc-simulate"}, b))
+            steps.append({"t": "view", "k": rng.randint(1, 2 * h + 2)})
+        out.append(({"w": w, "h": h, "steps": steps, "driver": ("tlc-simulate-clean" if clean else "tlc-simulate") + ("-ext" if ext else "")}, b))
+    return out
+
+
+def region_family(w, h, rd, workers):
+    """Every history of VTerm.tla's RegSpec (screen filled, mode prelude, every scrolling region, cursor on every row at both
+    edges, every command of RegActs, rd - 1 further text runs), model-checked against the laws of the model on the way."""
+    states, r = tlc.dump_states("VTerm", REG_CFG.format(w=w, h=h, rd=rd), workers=workers, timeout=3000)
+    leaves = [st for st in states if st["n"] == 4 + rd]
+    leaves.sort(key=lambda st: json.dumps(st["hist"]))     # the order of a multi-worker dump is not fixed
+    return leaves, r
+
+
+def region_specs(w, h, leaves, rng):
+    out = []
+    for st in leaves:
+        steps = [make_step({"t": c["t"], "a": c["a"], "b": c["b"], "ps": list(c["ps"])}, rng) for c in st["hist"][1:]]
+        out.append(({"w": w, "h": h, "steps": steps, "driver": "tlc-region-family"}, st))
     return out
 
 
@@ -645,7 +839,8 @@ def _sig_a(tr, l, why):
     if e["t"] in ("el", "ed"):
         sig["mode"] = e["a"]
     sig["width_1"] = e["w"] == 1
-    for k in ("d_stale_pending", "d_pending_in", "d_row_vs_region", "d_cx_gt0", "d_true_palette_mix", "d_bright_carried", "d_sgr_trailing_zero_component"):
+    for k in ("d_stale_pending", "d_stale_by", "d_pending_in", "d_row_vs_region", "d_cx_gt0", "d_om", "d_true_palette_mix", "d_bright_carried",
+              "d_sgr_trailing_zero_component", "d_restored_after_scs", "d_charset_stale"):
         sig[k[2:]] = e[k]
     return clause, sig
 
@@ -669,8 +864,17 @@ def _handle(chk, traces, res, label):
                                           "why": why, "observed": e})
 
 
+_EV_KEYS = ("t", "a", "b", "ps", "exc", "w", "h", "k", "rot", "pend", "g", "cur", "sb", "pen", "reg", "tabs", "md", "reps", "view",     # (a)
+            "hang", "nq", "qk", "lens", "ccur")                                                                                      # (b)
+
+
 def _validate(chk, name, traces, strict, jobs, batch=6000):
-    return tlc.validate("VTermTrace", traces, env={"C15_STRICT": "1" if strict else "0"}, jobs=jobs, batch_events=batch, timeout=3000)
+    # TLC reads the whole JSON: only what VTermTrace.tla looks at is written (no replay spec, no diagnostics)
+    slim = [{"kind": tr["kind"], "w": tr["w"], "h": tr["h"], "ev": [{k: e[k] for k in _EV_KEYS if k in e} for e in tr["ev"]]} for tr in traces]
+    return tlc.validate("VTermTrace", slim, env={"C15_STRICT": "1" if strict else "0"}, jobs=jobs, batch_events=batch, timeout=3000)
+
+
+REGION_OPS = ("put", "txt", "lf", "ind", "nel", "ri", "il", "dl", "cuu", "cud", "cnl", "cpl", "vpa", "cup", "ed", "cpr")
 
 
 def run(chk):
@@ -690,67 +894,113 @@ def run(chk):
     fut_hangy = pool.map_async(run_b, hangy, chunksize=1)
     fut_calm = pool.map_async(run_b, calm, chunksize=64)
     try:
-        # ---- design-level model checking of the reference terminal under all bounded command sequences ----------
-        r = tlc.mc("VTerm", MC_CFG.format(w=3, h=3, d=3 if quick else 4), workers=6, timeout=3000)
-        chk.add_mc("MC_VTerm_3x3", r)
-        if not r.ok:
-            chk.reject("C15.model." + str(r.violated), {"model": "VTerm", "inv": r.violated}, {"tlc_trace": r.trace[-6:]})
+        # ---- TLC on the model: laws of the reference under all bounded command sequences, refutations, and the two generators
+        #      (random behaviours, exhaustive region family); the runs overlap (JVM start dominates each of them) ------------------
+        n_sim = 100 if quick else 800
+        # (W, H, depth, clean profile, percent of commands outside the listed subset)
+        plan = [(4, 3, 16, True, 0), (3, 3, 14, False, 0), (4, 4, 18, True, 40), (9, 2, 14, True, 50)]
         if not quick:
-            r = tlc.mc("VTerm", MC_CFG.format(w=4, h=3, d=3), workers=6, timeout=3000)
-            chk.add_mc("MC_VTerm_4x3", r)
-            if not r.ok:
-                chk.reject("C15.model." + str(r.violated), {"model": "VTerm", "inv": r.violated}, {"tlc_trace": r.trace[-6:]})
-        r = tlc.mc("VTerm", REFUTE_CFG, workers=6, timeout=600)
-        chk.cov["comparator_refutes_erase_that_leaves_cursor_cell"] = (r.violated == "ExclusiveEraseIsAccepted")
-        chk.cov["tlc_runs"].append({"run": "MC_VTerm_wrong_erase_must_fail", "violated": r.violated, "generated": r.generated, "wall_s": round(r.wall_s, 1)})
-        if r.violated != "ExclusiveEraseIsAccepted":
-            chk.vacuity.append("refutation.ExclusiveEraseIsAccepted")
+            plan += [(3, 4, 20, True, 0), (2, 2, 12, False, 0), (5, 2, 16, True, 0), (3, 5, 24, True, 30), (17, 3, 20, True, 50), (1, 3, 12, True, 40),
+                     (4, 4, 16, False, 30)]
+        mcs = [("MC_VTerm_3x3", dict(w=3, h=3, d=3 if quick else 4, ext=0)), ("MC_VTerm_ext_3x3", dict(w=3, h=3, d=2 if quick else 3, ext=1))]
+        if not quick:
+            mcs += [("MC_VTerm_4x3", dict(w=4, h=3, d=3, ext=0)), ("MC_VTerm_2x4", dict(w=2, h=4, d=4, ext=0))]
+        regs = [(3, 4, 2)] if quick else [(3, 4, 2), (2, 5, 3), (4, 5, 2), (3, 3, 3), (2, 2, 3)]
+        with cf.ThreadPoolExecutor(3) as ex:
+            f_reg = [ex.submit(region_family, w, h, rd, 4) for w, h, rd in regs]
+            f_mc = [ex.submit(tlc.mc, "VTerm", MC_CFG.format(**kw), workers=4 if quick else 6, timeout=3000) for _, kw in mcs]
+            f_sim = [ex.submit(sim_behaviours, chk, *p, n_sim, 1 if quick else 6) for p in plan]
+            f_ref = [ex.submit(tlc.mc, "VTerm", REFUTE_CFG.format(w=w, h=h, inv=inv), workers=2, timeout=600) for inv, w, h in REFUTE]
+            for (name, _), f in zip(mcs, f_mc):
+                r = f.result()
+                chk.add_mc(name, r)
+                if not r.ok:
+                    chk.reject("C15.model." + str(r.violated), {"model": "VTerm", "inv": r.violated}, {"tlc_trace": r.trace[-6:]})
+            for (inv, _, _), f in zip(REFUTE, f_ref):
+                r = f.result()
+                chk.cov["comparator_refutes_" + inv] = (r.violated == inv)
+                chk.cov["tlc_runs"].append({"run": "MC_VTerm_wrong_variant_must_fail:" + inv, "violated": r.violated, "generated": r.generated,
+                                            "wall_s": round(r.wall_s, 1)})
+                if r.violated != inv:
+                    chk.vacuity.append("refutation." + inv)
+            raw = [f.result() for f in f_sim]
+            reg_raw = [f.result() for f in f_reg]
 
         # ---- (a) faithfulness ---------------------------------------------------------------------------------
-        n_sim = 100 if quick else 800
-        plan = [(4, 3, 16, True), (3, 3, 14, False)] + ([] if quick else [(3, 4, 20, True), (2, 2, 12, False), (5, 2, 16, True)])
-        with cf.ThreadPoolExecutor(2) as ex:   # the encodings are drawn afterwards, in plan order: deterministic
-            raw = list(ex.map(lambda p: sim_behaviours(chk, *p, n_sim, 3 if quick else 6), plan))
-        sims = []
+        sims = []                                # the encodings are drawn here, in plan order: deterministic
         for p, behs in zip(plan, raw):
             sims += sim_specs(p, behs, rng)
+        n_region = 0
+        for (w, h, rd), (leaves, r) in zip(regs, reg_raw):
+            chk.add_mc(f"MC_VTerm_region_family_{w}x{h}_depth{rd}", r)
+            sims += region_specs(w, h, leaves, rng)
+            n_region += len(leaves)
         a_specs = [s for s, _ in sims]
         n_rand = 450 if quick else 8000
+        n_rand_ext = 250 if quick else 4000
         a_specs += [random_a_spec(rng) for _ in range(n_rand)]
+        a_specs += [random_a_spec(rng, ext=0.45) for _ in range(n_rand_ext)]
         a_specs += directed_a_specs(rng)
-        a_traces = [run_a(s) for s in a_specs]
+        a_specs += scrollback_view_specs(rng, (1, 2, 3) if quick else (1, 2, 3, 4, 5, 6))
+        # in the forked workers: a collection of this process's large heap in the middle of a feed would trip the CPU-time watchdog
+        a_traces = pool.map(run_a, a_specs, chunksize=32)
         # spec -> code: how far each TLC behaviour's states agree with the emulator (informational)
         agree = total = 0
         for (s, b), tr in zip(sims, a_traces):
+            if isinstance(b, dict):              # region family: the final state of the history
+                total += 1
+                e = tr["ev"][-1]
+                agree += len(tr["ev"]) == len(s["steps"]) and [b["t"]["cx"], b["t"]["cy"]] == e["cur"] and \
+                    [[c["c"] for c in row] for row in b["t"]["grid"]] == [[c[0] for c in row] for row in e["g"]]
+                continue
             for st, e in zip(b[1:], tr["ev"]):
                 total += 1
-                if e["t"] in LISTED and [st["t"]["cx"], st["t"]["cy"]] == e["cur"] and \
+                if e["t"] in CMDS and [st["t"]["cx"], st["t"]["cy"]] == e["cur"] and \
                         [[c["c"] for c in row] for row in st["t"]["grid"]] == [[c[0] for c in row] for row in e["g"]]:
                     agree += 1
                 else:
                     break
         chk.cov["spec_to_code_steps"] = total
         chk.cov["spec_to_code_steps_agreeing_text_and_cursor"] = agree
-        res = _validate(chk, "a", a_traces, False, jobs, batch=3500 if quick else 8000)
-        chk.add_tv("TV_VTermTrace_faithfulness", res)
-        _handle(chk, a_traces, res, "c15-a")
-        rejected = {ti for ti, _, _ in res.rejects}
-        # strict pass (xterm only, flags compared): what only this pass rejects is a DIVERGENCE
-        sub = [tr for i, tr in enumerate(a_traces) if i not in rejected][: 160 if quick else 3000]
-        sres = _validate(chk, "a-strict", sub, True, jobs, batch=4000 if quick else 8000)
-        chk.cov["tlc_runs"].append({"run": "TV_VTermTrace_strict_xterm(divergence only)", "traces": sres.traces, "events": sres.events,
-                                    "rejected": len(sres.rejects), "wall_s": round(sres.wall_s, 1)})
-        for ti, l, why in sres.rejects:
-            e = sub[ti]["ev"][l - 1]
-            why = why[:-len(".as_coded")] if why.endswith(".as_coded") else why
-            what = {"cursor_equals_reference": "cursor", "screen_equals_reference.colour": "colour_or_flags", "screen_equals_reference.text": "text",
-                    "screen_equals_reference.region": "region", "screen_equals_reference.pen": "pen_flags"}.get(why, why)
-            chk.divergence(f"xterm_strict.{what}.after_{e['t']}", {"cmd": [e["t"], e["a"], e["b"], e["ps"]], "row_vs_region": e["d_row_vs_region"]})
+        # strict pass (xterm only, flags compared) over a sample of every driver: what only this pass rejects is a DIVERGENCE
+        by_driver = {}
+        for i, tr in enumerate(a_traces):
+            by_driver.setdefault(tr["driver"], []).append(i)
+        sub_idx = []
+        for drv, idx in by_driver.items():
+            k = (30 if quick else 600) if drv != "tlc-region-family" else (80 if quick else 1500)
+            sub_idx += idx[:: max(1, len(idx) // k)][:k]
+        sub = [a_traces[i] for i in sub_idx]
         b_traces = fut_hangy.get(timeout=3000) + fut_calm.get(timeout=3000)
     finally:
         pool.terminate()
         pool.join()
-    bres = _validate(chk, "b", b_traces, False, jobs, batch=3500 if quick else 20000)
+
+    def balanced(traces, j):      # as many batches as validation jobs
+        return max(2000, (sum(len(t["ev"]) + 1 for t in traces) + j - 1) // j)
+
+    ja = 3 if quick else 6        # the tolerant pass of (a); the strict pass and (b) share the remaining job(s)
+    jo = jobs - ja
+    with cf.ThreadPoolExecutor(2) as ex:
+        f_a = ex.submit(_validate, chk, "a", a_traces, False, ja, balanced(a_traces, ja))
+        f_o = ex.submit(lambda: (_validate(chk, "a-strict", sub, True, jo, balanced(sub, jo)), _validate(chk, "b", b_traces, False, jo, balanced(b_traces, jo))))
+        res = f_a.result()
+        sres, bres = f_o.result()
+    chk.add_tv("TV_VTermTrace_faithfulness", res)
+    _handle(chk, a_traces, res, "c15-a")
+    rejected = {ti for ti, _, _ in res.rejects}
+    chk.cov["tlc_runs"].append({"run": "TV_VTermTrace_strict_xterm(divergence only)", "traces": sres.traces, "events": sres.events,
+                                "rejected": len(sres.rejects), "wall_s": round(sres.wall_s, 1)})
+    for ti, l, why in sres.rejects:
+        if sub_idx[ti] in rejected:       # rejected by the tolerant pass too: reported there
+            continue
+        e = sub[ti]["ev"][l - 1]
+        why = why[:-len(".as_coded")] if why.endswith(".as_coded") else why
+        what = {"cursor_equals_reference": "cursor", "screen_equals_reference.colour": "colour_or_flags", "screen_equals_reference.text": "text",
+                "screen_equals_reference.region": "region", "screen_equals_reference.pen": "pen_flags",
+                "replies_well_formed": "reply"}.get(why, why)
+        chk.divergence(f"xterm_strict.{what}.after_{e['t']}", {"cmd": [e["t"], e["a"], e["b"], e["ps"]], "row_vs_region": e["d_row_vs_region"],
+                                                                 "origin_mode": e["d_om"]})
     chk.add_tv("TV_VTermTrace_robustness", bres)
     _handle(chk, b_traces, bres, "c15-b")
     for tr in b_traces:
@@ -769,52 +1019,103 @@ def run(chk):
     # ---- bookkeeping --------------------------------------------------------------------------------------------
     kinds = {}
     nontriv = set()
+
+    def cnt(key):
+        kinds[key] = kinds.get(key, 0) + 1
+
     for tr in a_traces:
         for e in tr["ev"]:
-            kinds["a." + e["t"]] = kinds.get("a." + e["t"], 0) + 1
-            if e["t"] in LISTED:
-                nontriv.add(json.dumps([e["t"], e["a"], e["b"], e["ps"], e["g"], e["cur"]]))
-            if e["t"] in LISTED and e["reg"] != [0, e["h"] - 1]:
-                kinds["a.inside_a_scrolling_region"] = kinds.get("a.inside_a_scrolling_region", 0) + 1
+            cnt("a." + e["t"])
+            if e["t"] in CMDS:
+                nontriv.add(json.dumps([e["t"], e["a"], e["b"], e["ps"], e["g"], e["cur"], e["md"], e["reps"]]))
+            if e["t"] in CMDS and e["reg"] != [0, e["h"] - 1]:
+                cnt("a.inside_a_scrolling_region")
             if e["sb"]:
-                kinds["a.with_scrollback"] = kinds.get("a.with_scrollback", 0) + 1
+                cnt("a.with_scrollback")
+            if e["t"] == "view" and e["sb"]:
+                k = min(e["k"], len(e["sb"]))
+                cnt("a.view.scrolled_back_" + ("up_to_one_screen" if k <= e["h"] else "one_to_two_screens" if k < 2 * e["h"] else "two_screens_or_more"))
+                if e["k"] > len(e["sb"]):
+                    cnt("a.view.beyond_the_top_of_the_scrollback")
+            if e["t"] in CMDS and not e["exc"]:
+                dy = e["cur"][1] - e["d_cy_in"]
+                rel = e["d_row_vs_region"]
+                if e["t"] in REGION_OPS and e["reg"] != [0, e["h"] - 1]:
+                    cnt(f"a.region.{rel}.{e['t']}")
+                if e["t"] in ("put", "txt") and e["md"][2] and dy > 0 and e["reg"] != [0, e["h"] - 1]:
+                    cnt(f"a.region.{rel}.text_wraps_to_the_next_row")       # the cursor row advanced: no scroll, not the last row
+                if e["t"] in ("put", "txt") and e["md"][2] and dy == 0 and rel == "inside" and e["d_cy_in"] == e["reg"][1] and \
+                        e["reg"][1] < e["h"] - 1 and (e["d_pending_in"] or len(e["ps"]) > e["w"] - e["cur"][0]):
+                    cnt("a.region.inside.text_wrap_scrolls_a_region_above_the_last_row")
+                if e["d_om"]:
+                    cnt("a.origin_mode." + e["t"])
+                if e["md"][1] and e["t"] in ("put", "txt"):
+                    cnt("a.insert_mode.text")
+                if not e["md"][2] and e["t"] in ("put", "txt"):
+                    cnt("a.autowrap_off.text")
+                if e["md"][3] and e["t"] == "lf":
+                    cnt("a.newline_mode.lf")
+                if e["t"] in QUERY and e["reps"]:
+                    cnt("a.reply." + e["t"])
+                if e["t"] == "cpr" and e["reps"]:
+                    nontriv.add(json.dumps(["cpr-at", e["w"], e["h"], e["cur"], e["reg"], e["d_om"]]))
+                    cnt("a.reply.cpr." + rel)
     for tr in b_traces:
         for e in tr["ev"]:
-            kinds["b." + e["t"]] = kinds.get("b." + e["t"], 0) + 1
+            cnt("b." + e["t"])
             if e["reps"]:
                 kinds["b.replies"] = kinds.get("b.replies", 0) + len(e["reps"])
             if e["nq"] == 1:
-                kinds["b.query_probe"] = kinds.get("b.query_probe", 0) + 1
+                cnt("b.query_probe")
             if e["hang"]:
-                kinds["b.watchdog"] = kinds.get("b.watchdog", 0) + 1
+                cnt("b.watchdog")
             if e["exc"]:
-                kinds["b.exception"] = kinds.get("b.exception", 0) + 1
+                cnt("b.exception")
             if (e["w"], e["h"]) == (1, 1):
-                kinds["b.at_1x1"] = kinds.get("b.at_1x1", 0) + 1
+                cnt("b.at_1x1")
     chk.cov["clause_counts"] = dict(sorted(kinds.items()))
     chk.cov["distinct_nontrivial"] = len(nontriv)
-    for v in ["a." + k for k in LISTED] + ["a.resize", "a.view", "a.inside_a_scrolling_region", "a.with_scrollback", "b.feed", "b.rsz", "b.replies",
-                                           "b.query_probe", "b.at_1x1"]:
+    need = ["a." + k for k in CMDS] + ["a.resize", "a.view", "a.inside_a_scrolling_region", "a.with_scrollback", "b.feed", "b.rsz", "b.replies",
+                                       "b.query_probe", "b.at_1x1"]
+    need += [f"a.region.{rel}.{op}" for rel in ("above", "inside", "below") for op in REGION_OPS]
+    need += [f"a.region.{rel}.text_wraps_to_the_next_row" for rel in ("above", "inside", "below")]
+    need += ["a.view.scrolled_back_up_to_one_screen", "a.view.scrolled_back_one_to_two_screens", "a.view.scrolled_back_two_screens_or_more",
+             "a.view.beyond_the_top_of_the_scrollback"]
+    need += ["a.region.inside.text_wrap_scrolls_a_region_above_the_last_row", "a.origin_mode.cup", "a.origin_mode.cpr", "a.origin_mode.txt", "a.origin_mode.stbm",
+             "a.insert_mode.text", "a.autowrap_off.text", "a.newline_mode.lf", "a.reply.cpr", "a.reply.dsr", "a.reply.da",
+             "a.reply.cpr.above", "a.reply.cpr.inside", "a.reply.cpr.below"]
+    for v in need:
         if not kinds.get(v):
             chk.vacuity.append("driver." + v)
-    chk.cov["rule"] = ("(a) command sequences over put/CR/LF/BS/RI/CUP/CUU/CUD/CUF/CUB/EL/ED/ICH/DCH/IL/DL/DECSTBM/SGR: TLC -simulate behaviours of "
-                       "VTerm.tla (clean and full profile) and seeded random sequences with resizes and scrolled-back views, fed as bytes in random chunks "
+    if not n_region:
+        chk.vacuity.append("driver.tlc_region_family")
+    chk.cov["rule"] = ("(a) command sequences over put/CR/LF/BS/RI/CUP/CUU/CUD/CUF/CUB/EL/ED/ICH/DCH/IL/DL/DECSTBM/SGR and, next to the listed subset, text runs/"
+                       "IND/NEL/CHA/VPA/CNL/CPL/ECH/HT/HTS/TBC/DECOM/IRM/DECAWM/LNM/DECSC/DECRC/CSI s/CSI u/SO/SI/SCS/CPR/DSR/DA: TLC -simulate behaviours of "
+                       "VTerm.tla (clean and full profile, with and without the extended commands), the exhaustive scrolling-region family of VTerm.tla "
+                       "(screen filled x mode prelude x every region x cursor on every row at both edges x every region-sensitive command x a further "
+                       "text run; tlc -dump) and seeded random sequences with resizes and scrolled-back views, fed as bytes in random chunks "
                        "to a real TermCanvas, one event per command; (b) random streams of well-formed and malformed CSI/OSC/charset sequences, valid / "
                        "truncated / invalid UTF-8, C0/C1 controls, huge / zero / missing parameters, cut at random positions into feeds, with resizes "
-                       "down to 1x1 and query probes, four encodings, with and without focus; distinct = distinct (command, resulting grid and cursor)")
+                       "down to 1x1 and query probes, four encodings, with and without focus; distinct = distinct (command, resulting grid, cursor, modes, replies)")
     chk.cov["exhaustive"] = True
-    chk.cov["bounds"] = {"mc_grid": "3x3 depth %d" % (3 if quick else 4), "tlc_simulated_sequences": len(sims), "random_sequences": n_rand,
+    chk.cov["bounds"] = {"mc_grid": "3x3 depth %d (listed subset), depth %d (with extended commands)" % ((3, 2) if quick else (4, 3)),
+                         "region_family": [f"{w}x{h} depth {rd}" for w, h, rd in regs], "region_family_histories": n_region,
+                         "tlc_simulated_sequences": len(sims) - n_region, "random_sequences": n_rand, "random_sequences_extended": n_rand_ext,
                          "robustness_streams": len(b_specs), "hang_candidates": len(hangy), "watchdog_cpu_seconds": CPU_BUDGET_S}
     chk.sample({"faithfulness_steps": [{k: v for k, v in s.items()} for s in a_specs[0]["steps"][:6]], "grid_after_last": a_traces[0]["ev"][-1]["g"]})
     chk.sample({"robustness_ops": b_specs[1]["ops"][:4], "events": [{k: v for k, v in e.items() if not k.startswith("d_")} for e in b_traces[1]["ev"][:3]]})
     chk.cov["trusted_base"] = ["TLC", "Terminal.tla (xterm / VT100 semantics, DESIGN.md Appendix E) and the console dialect of VTermOps.tla",
                                "vf/props/c15.py: Stub widget, command encoder, cell projection pen_of/cell_of (AttrSpec accessors), CPU-time watchdog",
                                "vf/term.char_width (only for the wide-glyph DIVERGENCE)"]
-    chk.assumptions += ["faithfulness uses width-1 glyphs in utf8 mode, autowrap on, insert mode off, origin mode off; wide glyphs, tabs, charsets, modes only in (b)",
-                        "after a resize the reference adopts the emulator's screen (a VT100 has no resize); only the shape is judged there",
+    chk.assumptions += ["faithfulness uses width-1 glyphs in utf8 mode; wide glyphs only in (b)",
+                        "G1 is invoked (SO) only after it has been designated: the console's default G1 is the graphics set, a VT100's is ASCII",
+                        "CSI s / CSI u save and restore the cursor position only (SCO); ESC 7 / ESC 8 also the rendition and the charsets, not the modes",
+                        "autowrap off: the last-column flag is never set; HT leaves it alone on a VT100 and clears it on the console (both accepted)",
+                        "after a resize the reference adopts the emulator's screen and tab stops (a VT100 has no resize); only the shape is judged there",
                         "the emulator may keep more lines in its scrollback than the reference (lines leaving a region below the top); order is judged",
                         "SGR flags (bold, underline, ...) are compared only in the strict pass (DIVERGENCE); colours are compared by meaning "
                         "(palette 0-15 = basic colours, bold basic colour = bright)",
+                        "CPR in origin mode: the row relative to the top margin (VT100) and the screen row (console) are both accepted",
                         "a feed is a hang when it burns more than %.0f s of CPU (ITIMER_VIRTUAL), parameters between 1e6 and 1e9 are not generated for "
                         "insert/delete commands" % CPU_BUDGET_S]
 
@@ -828,7 +1129,7 @@ def replay(chk, path):
         tr = run_a(rp["spec"])
     else:
         chk.note("model-level replay: re-running the TLC model")
-        r = tlc.mc("VTerm", MC_CFG.format(w=3, h=3, d=3), workers=6, timeout=3000)
+        r = tlc.mc("VTerm", MC_CFG.format(w=3, h=3, d=3, ext=0), workers=6, timeout=3000)
         chk.add_mc("replay_MC_VTerm", r)
         if not r.ok:
             chk.reject("C15.model." + str(r.violated), {"model": "VTerm", "inv": r.violated}, {"tlc_trace": r.trace[-6:]})
